@@ -200,7 +200,8 @@ macro_rules! step_chain {
 }
 step_chain!(step_chain_consts, 10, [(Mark, a_none), (EmptyTuple, a_none), (None, a_none), (EmptyList, a_none), (EmptyDict, a_none), (NewTrue, a_none)]);
 step_chain!(step_chain_consts2, 10, [(NewFalse, a_none), (EmptySet, a_none), (NextBuffer, a_none), (Ext1, a_bytes1), (Ext2, a_bytes2), (Ext4, a_bytes4)]);
-step_chain!(step_chain_ints, 10, [(Int, a_digit_nl), (Long, a_digit_l_nl), (BinInt, a_bytes4), (BinInt1, a_bytes1), (BinInt2, a_bytes2), (Long1, a_long1), (Long4, a_long4)]);
+step_chain!(step_chain_ints_bin, 10, [(BinInt, a_bytes4), (BinInt1, a_bytes1), (BinInt2, a_bytes2), (Long1, a_long1), (Long4, a_long4)]);
+// (INT and LONG parse decimal text and stay one query each: chained with the others the query took 10 min)
 step_chain!(step_chain_floats_bytes, 10, [(Float, a_float_nl), (BinFloat, a_bytes8), (BinBytes, a_payload), (ShortBinBytes, a_payload), (BinBytes8, a_payload), (ByteArray8, a_payload)]);
 step_chain!(step_chain_bytes2, 10, [(BinString, a_payload), (ShortBinString, a_payload)]);
 // (the text opcodes STRING, UNICODE, *BINUNICODE*, PERSID go through from_utf8_lossy and stay one query each: chained they time out)
